@@ -460,6 +460,8 @@ class WsgiApplication(HttpBase):
         except Exception as e:
             logger.exception(e)
             p_ctx.out_error = Fault('Server', get_fault_string_from_exception(e))
+            # like every other way a call can end in a fault
+            p_ctx.fire_event('method_exception_object')
             return self.handle_error(p_ctx, others, p_ctx.out_error,
                                                                  start_response)
 
